@@ -38,6 +38,7 @@ import os
 import abc
 import time
 import logging
+import weakref
 import threading
 import contextlib
 from typing import Union, Optional, TypeVar, ClassVar, Any
@@ -59,6 +60,24 @@ _logger = logging.getLogger(__name__)
 
 PathLike = Union[str, 'os.PathLike[str]']
 FileLockT = TypeVar('FileLockT', bound='BaseFileLock')
+
+
+#: All lock objects alive in this process, to fix them up after a fork
+_instances: 'weakref.WeakSet[BaseFileLock]' = weakref.WeakSet()
+
+
+def _after_fork_in_child() -> None:
+    """
+    A forked child gets a copy of every lock object including its "held"
+    state and shares the open lock files (and with them the OS locks) of
+    its parent, but it doesn't hold any of the locks itself.
+    """
+    for lock in list(_instances):
+        lock._forget_inherited_lock()
+
+
+if hasattr(os, 'register_at_fork'):
+    os.register_at_fork(after_in_child=_after_fork_in_child)
 
 
 class BaseFileLock(abc.ABC):
@@ -103,6 +122,27 @@ class BaseFileLock(abc.ABC):
         # For reentrant locks, the number of levels deep. When this
         # falls to zero, the file lock can be released
         self._lock_counter: int = 0
+
+        _instances.add(self)
+
+    def _forget_inherited_lock(self) -> None:
+        """
+        Drop the state copied from the parent process in a forked child:
+        close the inherited descriptor (this doesn't unlock the file for
+        the parent, but keeping it open would keep the file locked even
+        after the parent is gone) and start over as not holding the lock.
+        """
+        fd, self._lock_file_fd = self._lock_file_fd, None
+        if fd is not None:
+            try:
+                os.close(fd)
+            except OSError:
+                pass
+        self._lock_counter = 0
+        if self._reentrant:
+            self._thread_lock = threading.RLock()
+        else:
+            self._thread_lock = threading.Lock()
 
     @property
     def lock_file(self) -> PathLike:
